@@ -511,6 +511,13 @@ class DateRange:
             date += self.step
 
     def __contains__(self, date):
+        if self.step.total_seconds() < 0:
+            # For negative steps, the range goes down from start to stop
+            if self.inclusive:
+                return self.stop <= date <= self.start
+            else:
+                return self.stop < date <= self.start
+
         if self.inclusive:
             return self.start <= date <= self.stop
         else:
